@@ -202,6 +202,22 @@ def vshape_jobs(items, thorough, max_exec=800):
     return jobs
 
 
+def reuse_jobs(items, thorough, max_exec=800):
+    """In-process simulators that keep ONE reply dictionary and update it in place (`return
+    self.data`): what mosaik stored or handed on for an earlier time must not change with it."""
+    jobs = []
+    for name, scen in items:
+        for lazy in (True, False):
+            for cache in ((True, False) if thorough or not lazy else (True,)):
+                cfg = dict(lazy=lazy, cache=cache, reuse=True)
+                jobs.append(dict(name=name, scen=scen, cfg=cfg, budget=0, max_exec=max_exec))
+                if thorough and scen.get("max_budget", 1) >= 1:
+                    jobs.append(dict(name=name, scen=scen, cfg=cfg, budget=1, max_exec=max_exec * 4))
+        jobs.append(dict(name=name, scen=scen, cfg=dict(lazy=True, cache=True, reuse=True, sync="all"),
+                         budget=0, max_exec=10))
+    return jobs
+
+
 def quick_jobs(seed=0):
     jobs = []
     for name, scen in scenarios.CATALOGUE.items():
@@ -213,6 +229,7 @@ def quick_jobs(seed=0):
                                  max_exec=6000))
     jobs += sync_jobs(scenarios.CATALOGUE.items(), thorough=False)
     jobs += vshape_jobs(scenarios.CATALOGUE.items(), thorough=False)
+    jobs += reuse_jobs(scenarios.CATALOGUE.items(), thorough=False)
     # a slice of the generated family (the first scenarios of the thorough tier's window)
     fs, fam2, _, fam3, _ = gen_families(seed)
     q2 = fam2[:int(os.environ.get("VERIF_QGEN2", "160"))]
@@ -260,6 +277,7 @@ def thorough_jobs(seed=0):
                 jobs.append(dict(name=name, scen=scen, cfg=cfg, budget=b, max_exec=20000))
     jobs += sync_jobs(scenarios.CATALOGUE.items(), thorough=True)
     jobs += vshape_jobs(scenarios.CATALOGUE.items(), thorough=True)
+    jobs += reuse_jobs(scenarios.CATALOGUE.items(), thorough=True)
     fs, fam2, tot2, fam3, tot3 = gen_families(seed)
     jobs += sync_jobs([(f"gen2-{fs}-{i}", sc) for i, sc in enumerate(fam2)], thorough=False,
                       max_exec=2000)
